@@ -17,5 +17,7 @@ def run(ctx):
     # statements and captures mixed with file operations, in loops, branches and functions
     gen = progflow.generate(ctx, "cmds", 120 if ctx.tier == "quick" else 3000)
     failures += progflow.judge(ctx, gen, "gen")
+    # beyond the small scope: sizes that cross the one-digit / two-digit boundary of names, counters and indices (spec/FamScale.tla)
+    failures += progflow.judge(ctx, progflow.scale_cases(ctx, "C18"), "scale")
     progflow.report(ctx, failures)
     return ctx.finish(rule=RULE, assumptions=ASSUME)
